@@ -308,6 +308,10 @@ func checkC15(c *core.Ctx) {
 		sym := syms[(j/len(roots))%len(syms)]
 		sharp := j/(len(roots)*len(syms)) == 1
 		target := root.String()
+		if j%3 == 1 && root.Acc != 0 {
+			// the unicode spelling the lexer equally accepts
+			target = string(root.Letter) + map[int]string{1: "♯", -1: "♭"}[root.Acc]
+		}
 		if sym != "" {
 			target += "_" + sym
 		}
